@@ -448,12 +448,12 @@ func (st *State) pendingChoice(name string, n uint64) *Term {
 	if st.pend != nil && st.pendName == name {
 		return st.pend
 	}
-	v := st.addSym(name, 8)
-	if n > 255 {
+	v := st.addSym(name, 16)
+	if n > 65535 {
 		st.fail("vChoice range too large")
 		abort()
 	}
-	st.assume(Cmp(OUlt, v, C(8, n)))
+	st.assume(Cmp(OUlt, v, C(16, n)))
 	st.pend = v
 	st.pendName = name
 	return v
